@@ -131,6 +131,45 @@ def check(prog, rep, tier):
                     okd = False
         if okd:
             rep.ok("C15.no-duplicate", f"{ctx}.add")
+        # ------------------------------------------------------------ the presence test looks at both candidate buckets, completely
+        cp = prog.method(ctx, "_check_if_present")
+        okp = True
+        fpp = ("p", "fingerprint")
+        for p in paths(prog, ctx, cp):
+            if p.exit[0] != "return":
+                continue
+            seen_b = {}
+            for c in p.conds:
+                a = strip_epochs(c.atom)
+                which = None
+                if a[0] == "cmp" and a[1] in ("in", "notin") and a[2] == fpp:
+                    rhs = a[3]
+                    for k in ("idx_1", "idx_2"):
+                        bk = ("sub", ("f", SELF, TABLE, 0), ("p", k), 0)
+                        full = rhs == bk or (rhs[0] == "comp" and len(rhs[3]) == 1 and not rhs[3][0][3] and strip_epochs(rhs[3][0][2]) == bk
+                                             and strip_epochs(rhs[2])[0] in ("sub", "f", "it"))
+                        if full:
+                            which = k
+                if which is None:
+                    rep.bad("C15.no-duplicate", f"{ctx}._check_if_present", f"decision {nshow(a)}",
+                            f"the presence test also branches on {nshow(a)}: it may skip a candidate bucket and report a stored fingerprint as absent, so add stores it twice", cp.where(c.node))
+                    okp = False
+                    break
+                seen_b[which] = ((a[1] == "in") == c.truth)
+            if not okp:
+                break
+            rv = strip_epochs(p.exit[1])
+            if rv == C(None) and not (seen_b.get("idx_1") is False and seen_b.get("idx_2") is False):
+                rep.bad("C15.no-duplicate", f"{ctx}._check_if_present", f"absent after looking at {sorted(seen_b)}",
+                        f"'not present' is concluded after examining only {sorted(k for k in seen_b)}: a fingerprint stored in the other candidate bucket is inserted again", cp.where())
+                okp = False
+                break
+            if rv != C(None) and not (rv[0] == "p" and seen_b.get(rv[1]) is True):
+                rep.bad("C15.no-duplicate", f"{ctx}._check_if_present", f"returns {nshow(rv)}", "the reported bucket is not one in which the fingerprint was found", cp.where())
+                okp = False
+                break
+        if okp:
+            rep.ok("C15.no-duplicate", f"{ctx}._check_if_present: both candidate buckets examined completely")
         # ------------------------------------------------------------ capacity writers
         okw = True
         for f in mro_methods(prog, ctx):
@@ -215,6 +254,9 @@ MUTANTS = [
     Mutant("eviction: next index from the OLD in-hand entry", _CK, replace_stmt("CuckooFilter", "_insert_fingerprint", "index_1, index_2 = self._indicies_from_fingerprint(fingerprint)", "index_1, index_2 = self._indicies_from_fingerprint(swb + 1)"), rule="C15.candidate"),
     Mutant("eviction: next index random", _CK, replace_stmt("CuckooFilter", "_insert_fingerprint", "idx = index_2 if idx == index_1 else index_1", "idx = random.randint(0, self.capacity - 1)"), rule="C15.candidate"),
     Mutant("add: insert without the presence test", _CK, replace_stmt("CuckooFilter", "add", "if is_present is not None", "pass"), rule="C15.no-dup"),
+    Mutant("counting presence test skips the alternate bucket when the primary has room", _CC,
+           replace_stmt("CountingCuckooFilter", "_check_if_present", "if fingerprint in [x.finger for x in self.buckets[idx_2]]", "if len(self.buckets[idx_1]) >= self.bucket_size and fingerprint in [x.finger for x in self.buckets[idx_2]]:\n    return idx_2"), rule="C15.no-dup"),
+    Mutant("presence test looks at the first slot only", _CK, replace_expr("CuckooFilter", "_check_if_present", "self.buckets[idx_2]", "self.buckets[idx_2][:1]"), rule="C15.no-dup"),
     Mutant("_setup_expand: capacity + expansion_rate", _CK, replace_expr("CuckooFilter", "_setup_expand", "self.capacity * self.expansion_rate", "self.capacity + self.expansion_rate"), rule="C15.capacity"),
     Mutant("add passes swapped candidate of another fingerprint", _CK, replace_expr("CuckooFilter", "add", "self._insert_fingerprint(fingerprint, idx_1, idx_2)", "self._insert_fingerprint(fingerprint, idx_1, idx_1 + 1)"), rule="C15.candidate"),
     Mutant("counting remove: zero bin kept", _CC, del_stmt("CountingCuckooFilter", "remove", "self.buckets[idx].remove(bucket)"), rule="C15.no-zero"),
